@@ -22,35 +22,35 @@ func init() {
 
 	register(&core.Rule{ID: "C01.1", Prop: "C01", MinSites: 1,
 		Desc: "leftover preserved: in every function that sets c.buffer from a read and calls OnTraffic on a stream conn, each path from the callback to the next read, to a reassignment of c.buffer or to a normal return first appends c.buffer to c.inboundBuffer",
-		Run: runC01_1})
+		Run:  runC01_1})
 	register(&core.Rule{ID: "C01.2", Prop: "C01", MinSites: 2,
 		Desc: "window identity: the slice stored in c.buffer before OnTraffic is B[:n] with B the destination and n the unmodified count of the dominating unix.Read/Recvfrom",
-		Run: runC01_2})
+		Run:  runC01_2})
 	register(&core.Rule{ID: "C01.3", Prop: "C01", MinSites: 8,
 		Desc: "older bytes first: in the Reader methods of *conn every consumption/exposure of c.buffer happens on the inboundBuffer.IsEmpty()==true edge or after a drain call on inboundBuffer / a delegating Reader call",
-		Run: runC01_3})
+		Run:  runC01_3})
 	register(&core.Rule{ID: "C01.4", Prop: "C01", MinSites: 4,
 		Desc: "accounting: every Reader-side function that reads inboundBuffer.Buffered() or len(c.buffer) reads both and adds them",
-		Run: runC01_4})
+		Run:  runC01_4})
 	register(&core.Rule{ID: "C01.5", Prop: "C01", MinSites: 3,
 		Desc: "drain before EOF-close: processIO closes with io.EOF only on events without read bits; on hang-up with readable data it sets isEOF before the final read, and read loops while isEOF",
-		Run: runC01_5})
+		Run:  runC01_5})
 	register(&core.Rule{ID: "C01.6", Prop: "C01", MinSites: 1,
 		Desc: "ET re-arm: when the edge-triggered read loop stops at its per-round limit with a full buffer, a read task for the same conn is triggered on the same loop",
-		Run: runC01_6})
+		Run:  runC01_6})
 	register(&core.Rule{ID: "C01.7", Prop: "C01", MinSites: 6,
 		Desc: "advance equals exposure: every c.buffer = c.buffer[k:] in the Reader methods advances by the count returned by the copy/Write that consumed it, by the bound of the slice just exposed, or by n minus the ring bytes drained before",
-		Run: runC01_7})
+		Run:  runC01_7})
 }
 
 type inAnch struct {
-	v                        *vocab
+	v                                    *vocab
 	ringWrite, ringIsEmpty, ringBuffered *types.Func
-	drains                   map[*types.Func]bool
-	isEOF                    *types.Var
-	elBuffer                 *types.Var
-	readerMethods            map[string]bool
-	resetBuffer              *types.Func
+	drains                               map[*types.Func]bool
+	isEOF                                *types.Var
+	elBuffer                             *types.Var
+	readerMethods                        map[string]bool
+	resetBuffer                          *types.Func
 }
 
 func inAnchors(c *core.Ctx) *inAnch {
